@@ -460,7 +460,7 @@ func runCheck(prop, tier string) int {
 					lmu.Lock()
 					silent := time.Since(lastLine)
 					lmu.Unlock()
-					if silent > 180*time.Second {
+					if silent > 600*time.Second {
 						hung = true
 						cmd.Process.Kill()
 						return
@@ -599,6 +599,7 @@ func runCheck(prop, tier string) int {
 	seen := map[string]bool{}
 	exit := 0
 	reported := 0
+	unconfirmed := 0
 	knownHit := map[string]bool{}
 	for _, fv := range a.viol {
 		k := fv.v.Oracle + "|" + fv.v.Sig
@@ -657,8 +658,10 @@ func runCheck(prop, tier string) int {
 				confirmed = isExit && ee.ExitCode() == 1
 			}
 			if !confirmed {
-				fmt.Printf("HARNESS-TROUBLE: violation did not reproduce from %s in %d fresh process(es) (%v)\n%s\n", final, tries, lastErr, tail(string(lastOut), 800))
-				return 2
+				// not reported as a violation; remembered, and exit 2 unless another violation of this run is confirmed
+				fmt.Printf("NOT-CONFIRMED: oracle=%s did not reproduce from %s in %d fresh process(es) (%v)\n%s\n", fv.v.Oracle, final, tries, lastErr, tail(string(lastOut), 400))
+				unconfirmed++
+				continue
 			}
 		}
 		fmt.Printf("violation: oracle=%s sig=%s detail=%s\n", fv.v.Oracle, fv.v.Sig, trunc(fv.v.Detail, 600))
@@ -667,6 +670,10 @@ func runCheck(prop, tier string) int {
 		exit = 1
 	}
 
+	if exit == 0 && unconfirmed > 0 {
+		fmt.Printf("HARNESS-TROUBLE: %d violation(s) seen by a worker did not reproduce from their replay files\n", unconfirmed)
+		return 2
+	}
 	if exit == 0 && stMismatch > 0 {
 		fmt.Println("HARNESS-TROUBLE: determinism self-test failed")
 		return 2
